@@ -39,6 +39,39 @@ Part B (history model; M3)
   Documented refusals (join mixing cell/no-cell, save of a half-set cell refused by _check_valid_unitcell, mdcrd with a
   skewed cell, lammpstrj/dtr without cell) are skips.  A half-set cell must never come out complete, and an op that a
   no-cell trajectory survives must not die with an internal error on a half-set one.
+Widened input classes (same monitors, same oracle, same tolerances; case kinds algebra[var/n/form/vform], util2, history2,
+sweep2, io, foreign; merged proportionally into the round-1 stream)
+  * algebra: the cell CLASS changes along the trajectory (mixed classes, rectangular first frames then skewed, skew only in
+    the last frames, two cells alternating), only ONE of the six fields varies per frame, 1 / 2 / 130 / 260 frames; the cell
+    handed over as float64, nested lists / tuples, strided views, Fortran order, angles before lengths, after another cell
+    had been set; rotated vectors handed over as strided / Fortran / transposed / read-only arrays
+  * util2: float32 arrays and scalars (judged like the getter), strided / reversed / read-only views, 0-d arrays, > 100
+    frames, lengths_and_angles_to_tilt_factors (scalars -> 6 values lx ly lz xy xz yz, arrays -> (6, n); against the
+    oracle's standard-orientation vectors, abs 1e-9 L / D), the docstring examples, the exact special angles
+  * history2 / sweep2 (every new op on every cell state): center_coordinates(mass_weighted), superpose (reference = self /
+    another object, frame, atom_indices, parallel), smooth (order, atom_indices, inplace), image_molecules (inplace,
+    make_whole, anchor_molecules), make_molecules_whole, remove_solvent (inplace, exclude), restrict_atoms (default inplace
+    / copy), xyz / time assignment, deepcopy, an in-place edit of one stored entry (vectors and volumes are derived on
+    access), keys np.int64 / int32 arrays / negative step with bounds, join(check_topology=False), md.join of tuple /
+    generator / one trajectory / discard_overlapping_frames over three, join([a, b], discard_overlapping_frames=True),
+    t.join(t), t + t, t.stack(t), stack(keep_resSeq=False), atom_slice with int32 array / unsorted list / range, setter
+    values as tuples / integer arrays / strided / Fortran / read-only arrays
+  * io: format (h5 xtc trr dcd nc netcdf ncdf pdb pdb.gz gro lammpstrj mdcrd crd dtr xyz xyz.gz rst7 ncrst; .hdf5 .restrt
+    .inpcrd on the loading side; paths with capitals) x writer (Trajectory.save, save_<fmt> with its options: mode='a',
+    precision, header/ter/bfactors, force_overwrite over a stale file; the format's file object / md.open(path,'w') with one
+    write(), one write() per frame with (3,)-shaped cells, two chunks, h5 reopened in append mode; cell as float64 / float32
+    / list / strided array / box) x loader (md.load, load_<fmt>, stride, atom_indices, both, frame=, load_frame, iterload
+    with chunk / skip / stride / default chunk, file-object read_as_traj in two calls, raw read(), a list of two files with
+    and without discard_overlapping_frames), trajectories of 100 / 101 / 130 / 257 frames, numbered restart files of a
+    multi-frame trajectory.  A format that stores no cell (xyz) is a skip for a complete input and must not invent one.
+  * foreign: cell-carrying files as other programs write them (vlib/gen/c17_files.py): DCD with the angles in degrees
+    (X-PLOR / NAMD 2.5) instead of cosines, .gro with a 3-number and with a 9-number box line, PDB CRYST1 with space group
+    and Z preceded by HEADER/REMARK and followed by ORIGX/SCALE, LAMMPS dumps in %.16e with other boundary flags, a box
+    origin away from the atoms and negative tilts, TINKER .arc with a box line, AMBER restart with velocities before the
+    box line, mdcrd of another writer, double- and single-precision TRR with velocity / force blocks.
+  Not drawn because recorded elsewhere or not offered: trr with stride and an atom subset together (C02 heap overflow),
+  xtc/trr iterload(skip>0) (C02), dtr partial reads (C02), gro load(frame=) (NotImplementedError), NetCDF append mode (not
+  offered), gsd / pdbx (gsd, openmm not installed), lh5 (saver broken by the installed PyTables, stores no cell).
 """
 from __future__ import annotations
 
@@ -59,13 +92,17 @@ NATIVE = ["mdtraj.formats.xtc", "mdtraj.formats.trr", "mdtraj.formats.dcd", "mdt
 RULE = ("cases = algebra batches (cell class x per-frame variation x rotation kind, 24 cells each), direct utility calls, "
         "random op histories over a pool of trajectories (setter assignments incl. None / zeros / half-set, slicing, "
         "join, stack, atom_slice, save+load through 12 formats) and an exhaustive enumeration of setter sequences "
-        "followed by every op; a case is non-trivial when a monitor compared the real object's cell with the float64 "
-        "oracle / the history model; distinct = distinct case descriptors")
+        "followed by every op; widened classes: cell class / one field changing along the trajectory, 1..260 frames, "
+        "container / dtype / memory-layout forms of every setter and utility argument, the tilt-factor utility, ops that "
+        "must carry the cell along (center, superpose, smooth, image, whole, remove_solvent, restrict_atoms), join / stack "
+        "options, a format x writer x loader matrix over 18 extensions incl. file objects, iterload, frame=, file lists, "
+        "> 100 frames, and cell-carrying files as other programs write them; a case is non-trivial when a monitor "
+        "compared the real object's cell with the float64 oracle / the history model; distinct = distinct case descriptors")
 WORKERS = {"quick": 8, "thorough": 16}
 BUDGET = {"quick": 60, "thorough": 900}
 FLOORS = {"quick": {"vec.lengths": 2500, "vec.angles": 2500, "vec.orientation": 2500, "vec.angle-naming": 900,
                     "vol.triple": 2500, "vol.closed": 2500, "rot64.readback": 2500, "rot32.readback": 2500,
-                    "util.to-vectors": 350, "util.from-vectors": 350,
+                    "util.to-vectors": 350, "util.from-vectors": 350, "util.tilt-factors": 150,
                     "history.presence": 6000, "history.values": 9000, "history.getters": 5500}}
 ASSUMPTIONS = [
     "physically valid cell = lengths in [0.3, 300] nm, angles satisfying the positivity condition with D >= ~2e-5 "
@@ -77,6 +114,12 @@ ASSUMPTIONS = [
     "skipped when the cell varied per frame (presence and shape are still judged for all frames)",
     "operations mdtraj documents as errors (join of cell with no-cell, save of half-set cell, mdcrd with skewed cell, "
     "lammpstrj/dtr without cell) are skips",
+    "the unitcell_vectors setter is given an ndarray of shape (n_frames, 3, 3) (class docstring); the 'tuple of three "
+    "arrays' wording of the setter's own docstring contradicts its indexing and is not used",
+    "python lists are not handed to the mdtraj.utils.unitcell functions (documented: scalar or np.ndarray)",
+    "image_molecules / make_molecules_whole without a complete cell, smooth on fewer than 3 frames and superpose on fewer "
+    "than 4 atoms are skips; a format without a cell record (xyz) is a skip for a complete input",
+    "with several files of a PDB (one CRYST1 each) only the first frame of each file is compared when the cell varies",
 ]
 
 EPS32 = oc.EPS32
@@ -136,7 +179,109 @@ def gen_cell(rng, cls):
     raise ValueError(cls)
 
 
+VARIATIONS = ["mixedclass", "firstortho", "lateskew", "onefield", "alternate"]
+CELL_FORMS = ["ctor64", "set-lists", "set-angles-first", "noncontig", "fortran", "tuple-rows", "reassign"]
+VEC_FORMS = ["noncontig", "fortran", "transposed", "readonly", "plain"]
+
+
+def vary_cells(rng, cls, n, var):
+    """per-frame cells where the cell CLASS, or only ONE of the six fields, changes along the trajectory"""
+    if var == "mixedclass":
+        return [gen_cell(rng, CLASSES[int(rng.integers(len(CLASSES)))]) for _ in range(n)]
+    skew = cls if cls not in ("cubic", "ortho") else "triclinic"
+    if var == "firstortho":  # the first frames rectangular, the rest skewed: anything decided on frame 0 is wrong later
+        k = min(n, int(rng.integers(1, max(2, n // 2))))
+        return [gen_cell(rng, ["ortho", "cubic"][int(rng.integers(2))]) for _ in range(k)] + [gen_cell(rng, skew) for _ in range(n - k)]
+    if var == "lateskew":  # the feature appears only in the last frames
+        k = int(rng.integers(1, min(4, n + 1)))
+        return [gen_cell(rng, "ortho") for _ in range(n - k)] + [gen_cell(rng, skew) for _ in range(k)]
+    if var == "alternate":
+        two = [gen_cell(rng, cls), gen_cell(rng, skew)]
+        return [two[f % 2] for f in range(n)]
+    if var == "onefield":
+        L0, A0 = gen_cell(rng, cls)
+        D0 = float(oc.gram_D(A0))
+        out = []
+        for _ in range(n):
+            L, A = np.array(L0, np.float64), np.array(A0, np.float64)
+            j = int(rng.integers(6))
+            if j >= 3:
+                A[j - 3] += rng.uniform(0.5, 4.0) * (1 if rng.random() < 0.5 else -1)
+                D = float(oc.gram_D(A.astype(np.float32).astype(np.float64)))
+                if not (D > max(3e-5, 0.5 * min(D0, 0.05)) and 8.0 < A[j - 3] < 172.0):
+                    A = np.array(A0, np.float64)
+                    j = int(rng.integers(3))
+            if j < 3:
+                L[j] *= rng.uniform(0.8, 1.25)
+            out.append((L, A))
+        return out
+    raise ValueError(var)
+
+
+def _array_form(W, form):
+    """the same values handed over as a different kind of ndarray"""
+    if form == "plain":
+        return W
+    if form == "noncontig":
+        big = np.zeros(W.shape[:-1] + (2 * W.shape[-1],), W.dtype)
+        big[..., ::2] = W
+        return big[..., ::2]
+    if form == "fortran":
+        return np.asfortranarray(W)
+    if form == "transposed":
+        ax = list(range(W.ndim))
+        ax[-1], ax[-2] = ax[-2], ax[-1]
+        return np.ascontiguousarray(W.transpose(ax)).transpose(ax)
+    if form == "readonly":
+        W = W.copy()
+        W.flags.writeable = False
+        return W
+    raise ValueError(form)
+
+
+def _build_with_cell(md, n, L, A, form):
+    xyz, top = np.zeros((n, 1, 3), np.float32), common.simple_topology(1)
+    L32, A32 = L.astype(np.float32), A.astype(np.float32)
+    if form == "ctor32":
+        return md.Trajectory(xyz, top, unitcell_lengths=L32, unitcell_angles=A32)
+    if form == "ctor64":
+        return md.Trajectory(xyz, top, unitcell_lengths=L, unitcell_angles=A)
+    t = md.Trajectory(xyz, top)
+    if form == "set-lists":
+        t.unitcell_lengths, t.unitcell_angles = L.tolist(), A.tolist()
+    elif form == "set-angles-first":
+        t.unitcell_angles = A32
+        t.unitcell_lengths = L32
+    elif form == "noncontig":
+        t.unitcell_lengths, t.unitcell_angles = _array_form(L, "noncontig"), _array_form(A32, "noncontig")
+    elif form == "fortran":
+        t.unitcell_lengths, t.unitcell_angles = np.asfortranarray(L32), np.asfortranarray(A)
+    elif form == "tuple-rows":
+        t.unitcell_lengths, t.unitcell_angles = tuple(map(tuple, L.tolist())), tuple(map(tuple, A.tolist()))
+    elif form == "reassign":  # another cell first: nothing of it may survive the second assignment
+        t.unitcell_vectors = np.tile(np.eye(3, dtype=np.float32) * 2.0, (n, 1, 1))
+        _ = t.unitcell_volumes
+        t.unitcell_lengths, t.unitcell_angles = L32, A32
+    else:
+        raise ValueError(form)
+    return t
+
+
 def gen_cases(tier, seed):
+    """round-1 stream and widened stream, merged proportionally (each keeps its own order and numbering) so that a
+    budget-truncated run has seen the same fraction of both"""
+    a, b = list(_gen_cases_round1(tier, seed)), list(_gen_cases_widened(tier, seed))
+    ia = ib = 0
+    while ia < len(a) or ib < len(b):
+        if ib >= len(b) or (ia < len(a) and ia * len(b) <= ib * len(a)):
+            yield a[ia]
+            ia += 1
+        else:
+            yield b[ib]
+            ib += 1
+
+
+def _gen_cases_round1(tier, seed):
     n = NCASES[tier]
     i = 0
     # exhaustive setter sequences first (deterministic, small)
@@ -212,8 +357,13 @@ def run_algebra(case, ctx):
     import mdtraj as md
     rng = common.rng_for("C17alg", case["seed"])
     cls = case["cls"]
-    n = NCELL
-    if case["perframe"]:
+    n = int(case.get("n", NCELL))
+    var = case.get("var")
+    if var is not None:
+        cells = vary_cells(rng, cls, n, var)
+        ctx.observe("algebra.variation", var)
+        ctx.observe("algebra.frames", n)
+    elif case["perframe"]:
         cells = [gen_cell(rng, cls) for _ in range(n)]
     else:
         cells = [gen_cell(rng, cls)] * n
@@ -222,7 +372,10 @@ def run_algebra(case, ctx):
     L32, A32 = L.astype(np.float32), A.astype(np.float32)
     ctx.observe("algebra.class", cls)
     ctx.observe("algebra.perframe", case["perframe"])
-    t = md.Trajectory(np.zeros((n, 1, 3), np.float32), common.simple_topology(1), unitcell_lengths=L32, unitcell_angles=A32)
+    form = case.get("form", "ctor32")
+    t = _build_with_cell(md, n, L, A, form)
+    if form != "ctor32":
+        ctx.observe("algebra.cell-input-form", form)
     Ls = np.asarray(t.unitcell_lengths, np.float64)
     As = np.asarray(t.unitcell_angles, np.float64)
     if Ls.shape != (n, 3) or As.shape != (n, 3) or not (np.array_equal(Ls, L32.astype(np.float64)) and np.array_equal(As, A32.astype(np.float64))):
@@ -319,9 +472,12 @@ def run_algebra(case, ctx):
         W[np.abs(W) < 1e-13 * np.abs(W).max(axis=(1, 2), keepdims=True)] = 0.0
     D0 = oc.gram_D(A)
     closed0 = oc.closed_volume(L, A)
+    vform = case.get("vform", "plain")
+    if vform != "plain":
+        ctx.observe("algebra.vectors-input-form", vform)
     for tag, Wd in (("rot64", W), ("rot32", W.astype(np.float32))):
         t2 = md.Trajectory(np.zeros((n, 1, 3), np.float32), t.topology)
-        t2.unitcell_vectors = Wd
+        t2.unitcell_vectors = _array_form(Wd, vform)
         gl, ga, gv = t2.unitcell_lengths, t2.unitcell_angles, t2.unitcell_volumes
         if gl is None or ga is None or gv is None or np.shape(gl) != (n, 3) or np.shape(ga) != (n, 3) or np.shape(gv) != (n,):
             ctx.violation(tag + ".readback", f"set-vectors({tag}):cell-missing-or-shape", f"after unitcell_vectors = rotated cell: lengths {np.shape(gl)}, angles {np.shape(ga)}, volumes {np.shape(gv)}")
@@ -436,6 +592,176 @@ def run_util(case, ctx):
         if cmp_la(v2la(W[f, 0].copy(), W[f, 1].copy(), W[f, 2].copy()), L[f], A[f], "1d", ()):
             ctx.ok("util.from-vectors")
     del sinA
+
+
+UTIL2_MODES = ["float32", "noncontig", "long", "tilt", "tilt-array", "doc", "float32-inverse", "special", "zerodim"]
+
+
+def run_util2(case, ctx):
+    """input classes of the three mdtraj.utils.unitcell functions that run_util never hands over: float32 arrays and
+    scalars, strided / reversed / read-only views, more than 100 frames, the tilt-factor function, the docstring examples,
+    the exact special angles"""
+    from mdtraj.utils import box_vectors_to_lengths_and_angles as v2la
+    from mdtraj.utils import lengths_and_angles_to_box_vectors as la2v
+    from mdtraj.utils.unitcell import lengths_and_angles_to_tilt_factors as la2t
+    rng = common.rng_for("C17util2", case["seed"])
+    mode, cls = case["mode"], case["cls"]
+    ctx.observe("util2.mode", mode)
+    n = int(rng.integers(2, 9)) if mode != "long" else [101, 128, 257, 300][int(rng.integers(4))]
+    if mode == "special":
+        # the exact special angles as a user types them; every frame another combination
+        tri = [(90, 90, 90), (90, 90, 60), (90, 90, 120), (60, 60, 90), (60, 90, 60), (90, 60, 60), (60, 60, 60), (109.4712206, 109.4712206, 109.4712206),
+               (90, 120, 90), (120, 90, 90), (90, 60, 90), (60, 90, 90), (109.4712206, 109.4712206, 90), (70.5287794, 109.4712206, 70.5287794)]
+        A = np.array([tri[int(rng.integers(len(tri)))] for _ in range(n)], np.float64)
+        L = np.array([gen_cell(rng, "ortho")[0] for _ in range(n)])
+        if rng.random() < 0.5:
+            L[:] = L[:, :1]
+    else:
+        cells = [gen_cell(rng, cls) for _ in range(n)]
+        L = np.array([c[0] for c in cells])
+        A = np.array([c[1] for c in cells])
+    B = oc.vectors64(L, A)
+
+    def judge32(vecs, Lr, Ar, label):
+        """vectors computed in float32: judged as the trajectory getter is (lengths rel 1e-6, angles float32 bound + snap,
+        orientation exact)"""
+        V = np.stack([np.asarray(v, np.float64) for v in vecs], axis=-2)
+        if V.shape != Lr.shape[:-1] + (3, 3):
+            ctx.violation("util.to-vectors", f"to_box_vectors:{label}:shape", f"{label}: output shapes {[np.shape(v) for v in vecs]} for inputs of shape {Lr.shape[:-1]}")
+            return
+        V2, L2, A2 = V.reshape(-1, 3, 3), Lr.reshape(-1, 3), Ar.reshape(-1, 3)
+        dom = oc.volume_reltol32(A2) <= 0.1
+        if not dom.any():
+            ctx.skip("util.to-vectors", "cell too close to degenerate for float32 arithmetic")
+            return
+        Lg, Ag, _ = oc.describe(np.where(np.isfinite(V2), V2, 1.0))
+        inv = 1.0 / np.clip(Lg, 1e-9, None)
+        snap = 2e-6 * DEG * np.stack([inv[:, 1] + inv[:, 2], inv[:, 2] + inv[:, 0], inv[:, 0] + inv[:, 1]], axis=1)
+        bad_l = dom & ((np.abs(Lg - L2) > 1e-6 * L2).any(axis=1) | ~np.isfinite(V2).all(axis=(1, 2)))
+        bad_a = dom & (np.abs(Ag - A2) > oc.angle_tol32(A2) + snap).any(axis=1)
+        bad_o = dom & ~((V2[:, 0, 1] == 0) & (V2[:, 0, 2] == 0) & (V2[:, 1, 2] == 0) & (V2[:, 0, 0] > 0) & (V2[:, 1, 1] > 0) & (V2[:, 2, 2] > 0))
+        for bad, what in ((bad_l, "lengths"), (bad_a, "angles"), (bad_o, "orientation")):
+            if bad.any():
+                f = _first(bad)
+                ctx.violation("util.to-vectors", f"to_box_vectors:{label}:{what}", f"{label}: vectors {V2[f].tolist()} for lengths {L2[f]} angles {A2[f]}")
+        ctx.ok("util.to-vectors", int((dom & ~bad_l & ~bad_a & ~bad_o).sum()))
+
+    def cmp64(got, ref, label, Lmax):
+        got = [np.asarray(g, np.float64) for g in got]
+        if any(g.shape != r.shape for g, r in zip(got, ref)):
+            ctx.violation("util.to-vectors", f"to_box_vectors:{label}:shape", f"{label}: output shapes {[g.shape for g in got]}, expected {[r.shape for r in ref]}")
+            return False
+        tol = 1e-6 + 1e-12 * Lmax
+        if not all(np.all(np.abs(g - r) <= tol) for g, r in zip(got, ref)):
+            ctx.violation("util.to-vectors", f"to_box_vectors:{label}:components", f"{label}: vectors {[g.tolist() for g in got]} differ from the definition {[r.tolist() for r in ref]}")
+            return False
+        return True
+
+    def cmp_inv(out, Lr, Ar, label, shape, ltol, atol):
+        out = [np.asarray(o, np.float64) for o in out]
+        if len(out) != 6 or any(o.shape != shape for o in out):
+            ctx.violation("util.from-vectors", f"from_box_vectors:{label}:shape", f"{label}: output shapes {[o.shape for o in out]}, expected six of {shape}")
+            return False
+        gl, ga = np.stack(out[:3], axis=-1), np.stack(out[3:], axis=-1)
+        if not np.all(np.abs(gl - Lr) <= ltol):
+            ctx.violation("util.from-vectors", f"from_box_vectors:{label}:lengths", f"{label}: lengths {gl.tolist()} for a cell with lengths {Lr.tolist()}")
+            return False
+        if not np.all(np.abs(ga - Ar) <= atol):
+            ctx.violation("util.from-vectors", f"from_box_vectors:{label}:angles", f"{label}: angles {ga.tolist()} for a cell with angles {Ar.tolist()}")
+            return False
+        return True
+
+    sA = np.clip(oc.sin_deg(A), 1e-6, None)
+    if mode in ("float32",):
+        L32, A32 = L.astype(np.float32), A.astype(np.float32)
+        L3, A3 = L32.astype(np.float64), A32.astype(np.float64)
+        judge32(la2v(L32[:, 0], L32[:, 1], L32[:, 2], A32[:, 0], A32[:, 1], A32[:, 2]), L3, A3, "float32-array")
+        for f in range(min(n, 2)):
+            judge32(la2v(*[np.float32(x) for x in L32[f]], *[np.float32(x) for x in A32[f]]), L3[f], A3[f], "float32-scalar")
+    elif mode == "zerodim":
+        # 0-d arrays are ndarrays AND scalars: documented output for scalar input is three vectors of length 3
+        for f in range(min(n, 3)):
+            if cmp64(la2v(*[np.array(x) for x in L[f]], *[np.array(x) for x in A[f]]), [B[f, 0], B[f, 1], B[f, 2]], "zero-dim", L[f].max()):
+                ctx.ok("util.to-vectors")
+    elif mode == "float32-inverse":
+        R = _rotations(rng, ["random", "identity", "axisperm"][int(rng.integers(3))], n)
+        W = np.einsum("nij,nkj->nik", B, R).astype(np.float32)
+        if cmp_inv(v2la(W[:, 0], W[:, 1], W[:, 2]), L, A, "float32-array", (n,), 8 * EPS32 * L, oc.angle_tol32(A)):
+            ctx.ok("util.from-vectors", n)
+        if cmp_inv(v2la(W[0, 0], W[0, 1], W[0, 2]), L[0], A[0], "float32-1d", (), 8 * EPS32 * L[0], oc.angle_tol32(A[0])):
+            ctx.ok("util.from-vectors")
+    elif mode in ("noncontig", "long", "special"):
+        if mode == "noncontig":
+            kind = ["columns", "reversed", "readonly", "strided"][int(rng.integers(4))]
+        else:
+            kind = "columns"
+        ctx.observe("util2.view", kind)
+        Lc, Ac, Bc = L, A, B
+        if kind == "reversed":
+            args = [L[::-1, j] for j in range(3)] + [A[::-1, j] for j in range(3)]
+            Bc, Lc, Ac = B[::-1], L[::-1], A[::-1]
+        elif kind == "readonly":
+            args = [np.array(L[:, j]) for j in range(3)] + [np.array(A[:, j]) for j in range(3)]
+            for a_ in args:
+                a_.flags.writeable = False
+        elif kind == "strided":
+            big = np.zeros((2 * n, 6))
+            big[::2, :3], big[::2, 3:] = L, A
+            args = [big[::2, j] for j in range(6)]
+        else:
+            args = [L[:, j] for j in range(3)] + [A[:, j] for j in range(3)]  # columns of a C array: stride 24 bytes
+        if cmp64(la2v(*args), [Bc[:, 0], Bc[:, 1], Bc[:, 2]], f"view-{kind}" if mode == "noncontig" else mode, L.max()):
+            ctx.ok("util.to-vectors", n)
+        R = _rotations(rng, "random", n)
+        W = np.einsum("nij,nkj->nik", Bc, R)
+        sAc = np.clip(oc.sin_deg(Ac), 1e-6, None)
+        if kind == "reversed":
+            out = v2la(W[::-1, 0][::-1], W[::-1, 1][::-1], W[::-1, 2][::-1])
+        elif kind == "strided":
+            bigW = np.zeros((n, 3, 6))
+            bigW[:, :, ::2] = W
+            out = v2la(bigW[:, 0, ::2], bigW[:, 1, ::2], bigW[:, 2, ::2])
+        else:
+            out = v2la(W[:, 0], W[:, 1], W[:, 2])  # views into the (n,3,3) array, not copies
+        if cmp_inv(out, Lc, Ac, f"view-{kind}" if mode == "noncontig" else mode, (n,), 1e-12 * Lc, 1e-9 / sAc):
+            ctx.ok("util.from-vectors", n)
+    elif mode in ("tilt", "tilt-array"):
+        D = np.clip(oc.gram_D(A), 1e-12, None)
+        ref = np.stack([B[:, 0, 0], B[:, 1, 1], B[:, 2, 2], B[:, 1, 0], B[:, 2, 0], B[:, 2, 1]])  # lx ly lz xy xz yz
+        tol = 1e-9 * L.max(axis=1) / D
+        if mode == "tilt":
+            for f in range(min(n, 3)):
+                as_np = rng.random() < 0.5
+                args = [np.float64(x) if as_np else float(x) for x in L[f]] + [np.float64(x) if as_np else float(x) for x in A[f]]
+                got = np.asarray(la2t(*args), np.float64)
+                if got.shape != (6,):
+                    ctx.violation("util.tilt-factors", "tilt_factors:scalar:shape", f"output shape {got.shape} for scalar inputs, documented lx ly lz xy xz yz")
+                elif not np.all(np.abs(got - ref[:, f]) <= tol[f]):
+                    ctx.violation("util.tilt-factors", "tilt_factors:scalar:values", f"tilt factors {got.tolist()} for lengths {L[f]} angles {A[f]}; definition gives {ref[:, f].tolist()}")
+                else:
+                    ctx.ok("util.tilt-factors")
+        else:
+            got = np.asarray(la2t(L[:, 0], L[:, 1], L[:, 2], A[:, 0], A[:, 1], A[:, 2]), np.float64)
+            if got.shape != (6, n):
+                ctx.violation("util.tilt-factors", "tilt_factors:array:shape", f"output shape {got.shape} for six inputs of shape ({n},)")
+            elif not np.all(np.abs(got - ref) <= tol[None, :]):
+                f = _first((np.abs(got - ref) > tol[None, :]).any(axis=0))
+                ctx.violation("util.tilt-factors", "tilt_factors:array:values", f"tilt factors {got[:, f].tolist()} for lengths {L[f]} angles {A[f]}; definition gives {ref[:, f].tolist()}")
+            else:
+                ctx.ok("util.tilt-factors", n)
+    elif mode == "doc":
+        # the examples of the docstrings, literally
+        a, b, c = la2v(1, 1, 1, 90.0, 90.0, 90.0)
+        if cmp64([a, b, c], [np.array([1.0, 0, 0]), np.array([0, 1.0, 0]), np.array([0, 0, 1.0])], "docstring-example", 1.0):
+            ctx.ok("util.to-vectors")
+        out = v2la(np.array([2, 0, 0], dtype=float), np.array([0, 1, 0], dtype=float), np.array([0, 1, 1], dtype=float))
+        ok = len(out) == 6 and out[0] == 2.0 and out[1] == 1.0 and out[2] == np.sqrt(2) and abs(out[3] - 45) < 1e-6 and abs(out[4] - 90.0) < 1e-6 and abs(out[5] - 90.0) < 1e-6
+        ctx.check(bool(ok), "util.from-vectors", "from_box_vectors:docstring-example", f"the docstring example returns {[float(o) for o in out]}")
+        # integer-typed vectors (the docstring builds its arrays from integer literals)
+        k = int(rng.integers(2, 6))
+        out = v2la(np.array([k, 0, 0], dtype=float), np.array([0, k, 0], dtype=float), np.array([0, k, k], dtype=float))
+        ctx.check(bool(abs(out[3] - 45) < 1e-9 and out[0] == k and abs(out[2] - k * np.sqrt(2)) < 1e-12), "util.from-vectors", "from_box_vectors:docstring-example-scaled", f"scaled docstring example returns {[float(o) for o in out]}")
+    del sA
 
 
 # ------------------------------------------------------------------------------------------------ part B
@@ -1011,6 +1337,1081 @@ def run_setters(case, ctx):
         shutil.rmtree(tmp, ignore_errors=True)
 
 
+# ------------------------------------------------------------------------------------------------ widened input classes
+# (added after the seeded-change reviews: every class below is drawn only by the case kinds "history2", "sweep2", "io",
+#  "foreign", "algebra" with var/n/form/vform fields and "util2"; the round-1 cases above are unchanged)
+REFUSALS += [
+    (ValueError, "does not define a periodic unit cell", "image_molecules / make_molecules_whole need a complete cell"),
+    (NotImplementedError, "", "the loader does not offer this option (gro: frame=)"),
+]
+EXT_ALIASES = {"netcdf": "nc", "ncdf": "nc", "crd": "mdcrd", "pdb.gz": "pdb", "xyz.gz": "xyz"}
+IO_FORMATS = ["h5", "xtc", "trr", "dcd", "nc", "netcdf", "ncdf", "pdb", "pdb.gz", "gro", "lammpstrj", "mdcrd", "crd", "dtr", "xyz", "xyz.gz", "rst7", "ncrst"]
+IO_WRITERS = ["save", "save_x", "low", "low-chunks", "low-frames"]
+IO_LOADERS = ["load", "load_x", "load(stride)", "load(atom_indices)", "frame", "load_frame", "iterload", "iterload(skip,stride)", "iterload(default)", "read_as_traj", "raw", "list", "list(discard)"]
+NO_CELL_FORMATS = {"xyz"}
+UNIT = {"h5": 1.0, "xtc": 1.0, "trr": 1.0, "gro": 1.0, "dcd": 10.0, "nc": 10.0, "mdcrd": 10.0, "lammpstrj": 10.0, "dtr": 10.0, "pdb": 10.0, "rst7": 10.0, "ncrst": 10.0, "xyz": 10.0}
+CARRY_OPS = ["center", "center(mass)", "superpose(self)", "superpose(frame,atoms)", "smooth", "smooth(inplace)", "smooth(atoms)", "image", "image(inplace)", "image(no-whole)",
+             "whole", "whole(inplace)", "remove_solvent", "remove_solvent(inplace)", "remove_solvent(exclude)", "restrict_atoms", "restrict_atoms(copy)", "xyz=", "time=", "deepcopy", "lengths[k,j]*=", "angles[k,j]="]
+SLICE2 = ["np.int64", "int32-array", "negstep-bounds", "full", "last"]
+JOIN2 = ["join(check_topology=False)", "md.join(tuple)", "md.join(generator)", "md.join(discard_overlapping_frames)", "md.join(check_topology=False)", "join(self)", "add(self)", "md.join(single)",
+         "join(list,discard_overlapping_frames)"]
+STACK2 = ["stack(keep_resSeq=False)", "stack(self)"]
+ATOMS2 = ["atom_slice(int32-array)", "atom_slice(unsorted)", "atom_slice(range)", "atom_slice(inplace,array)"]
+SETTER2 = ["L=tuple", "L=noncontig", "L=fortran", "L=int", "A=tuple", "A=noncontig", "A=int", "V=noncontig", "V=fortran", "V=readonly", "V=onezero-frame"]
+PATTERNS = ["perframe", "constant", "onefield", "firstortho", "lateskew", "alternate"]
+
+
+def _solvent_topology(n_atoms, n_prot):
+    """n_prot alanine CA atoms in chain 0 followed by water oxygens (one HOH residue each) in chain 1"""
+    import mdtraj as md
+    from mdtraj.core import element as elem
+    top = md.Topology()
+    ch = top.add_chain()
+    for i in range(n_prot):
+        top.add_atom("CA", elem.carbon, top.add_residue("ALA", ch))
+    if n_atoms > n_prot:
+        ch = top.add_chain()
+        for i in range(n_atoms - n_prot):
+            top.add_atom("O", elem.oxygen, top.add_residue("HOH", ch))
+    return top
+
+
+def _conv(x, form):
+    """one array handed to a low-level writer in the given container / dtype"""
+    x = np.asarray(x, np.float64)
+    if form == "float64":
+        return x.copy()
+    if form == "float32":
+        return x.astype(np.float32)
+    if form == "list":
+        return x.tolist()
+    if form == "noncontig":
+        return _array_form(x, "noncontig")
+    raise ValueError(form)
+
+
+class History2(History):
+    """History with the widened op set.  The model is the same few-line Shadow."""
+
+    def __init__(self, case, ctx, tmp):
+        super().__init__(case, ctx, tmp)
+        self.pattern = case.get("pattern")
+
+    # ---- generators
+    def cells(self, nf, perframe=None):
+        rng = self.rng
+        pat = self.pattern or PATTERNS[int(rng.integers(len(PATTERNS)))]
+        if self.cellkind == "ortho":
+            cs = [common.random_cell(rng, "ortho") for _ in range(nf)]
+            if pat in ("constant",):
+                cs = [cs[0]] * nf
+            elif pat == "onefield":
+                cs = vary_cells(rng, "ortho", nf, "onefield")
+                cs = [(L, np.array([90.0, 90.0, 90.0])) for L, _ in cs]
+            return np.array([c[0] for c in cs]), np.array([c[1] for c in cs])
+        cls = [None, "distinct", "monoclinic", "triclinic", "hex120", "truncoct"][int(rng.integers(6))]
+        g = (lambda: gen_cell(rng, cls)) if cls == "distinct" else (lambda: common.random_cell(rng, cls))
+        if pat == "perframe":
+            cs = [g() for _ in range(nf)]
+        elif pat == "constant":
+            cs = [g()] * nf
+        else:
+            cs = vary_cells(rng, cls or "triclinic", nf, pat)
+        self.ctx.observe("history2.cell-pattern", pat)
+        return np.array([c[0] for c in cs]), np.array([c[1] for c in cs])
+
+    def fresh(self, nf=None, na=None, state=None):
+        rng = self.rng
+        nf = int(rng.integers(1, 10)) if nf is None else nf
+        na = int(rng.integers(3, 8)) if na is None else na
+        nprot = int(rng.integers(1, na + 1))
+        jit = rng.integers(-4, 5, (nf, na, 3)) / 256.0  # not collinear (superpose), still exact in float32 and |xyz| < 10 nm
+        t = self.md.Trajectory(0.25 * common.self_identifying_xyz(nf, na, f0=int(rng.integers(0, 3))) + jit.astype(np.float32), _solvent_topology(na, nprot))
+        t.time = (np.arange(nf) * 2.0 + float(rng.integers(0, 5))).astype(np.float32)
+        m = Shadow(nf, na)
+        state = state or ["complete", "complete", "complete", "none", "lengths-only", "angles-only"][int(rng.integers(6))]
+        if state in ("complete", "lengths-only", "angles-only"):
+            L, A = self.cells(nf)
+            if state != "angles-only":
+                t.unitcell_lengths = L
+                m.L = L.astype(np.float32).astype(np.float64)
+            if state != "lengths-only":
+                t.unitcell_angles = A
+                m.A = A.astype(np.float32).astype(np.float64)
+        self.trace.append(f"fresh2(nf={nf},na={na},{state})")
+        return t, m
+
+    # ---- judging helpers
+    def judge_inplace(self, op, t, m):
+        """t was modified in place by an op that must leave the cell alone"""
+        if t.n_frames != m.nf or t.n_atoms != m.na:
+            self.ctx.violation("history.presence", f"{op}:result-dimensions", f"{op}: object has {t.n_frames} frames x {t.n_atoms} atoms, model says {m.nf} x {m.na}", history=self.trace[-12:])
+            return
+        if m.complete:
+            out = self.judge(op, t, m, m.state)
+            if out is not None:
+                m.assign(out)
+        else:
+            got = (t.unitcell_lengths is not None, t.unitcell_angles is not None)
+            if self.ctx.check(got == (m.L is not None, m.A is not None), "history.presence", f"{op}:{m.state}:presence-changed", f"{op}: cell presence changed to lengths={got[0]} angles={got[1]}") is not False:
+                self.getters(op, t, m)
+
+    def judge_new(self, op, r, m, nf=None, na=None, add=True, base=None, rows=None):
+        nf = m.nf if nf is None else nf
+        na = m.na if na is None else na
+        if m.complete:
+            sl = slice(None) if rows is None else rows
+            exp = m.derive(m.L[sl], m.A[sl], nf=nf, na=na)
+        else:
+            exp = Shadow(nf, na)
+        out = self.judge(op, r, exp, m.state, base=base)
+        if out is not None and add:
+            self.add(r, out)
+        return out
+
+    # ---- ops that must carry the cell along unchanged
+    def op_carry(self, t, m, which=None):
+        import copy
+        rng = self.rng
+        which = which or CARRY_OPS[int(rng.integers(len(CARRY_OPS)))]
+        self.ctx.observe("history.op", which)
+        self.trace.append(f"{which}[{m.state}]")
+        st = [m.state]
+        nprot = sum(1 for a in t.topology.atoms if a.residue.name != "HOH")
+        if which in ("center", "center(mass)"):
+            r = self.attempt(which, lambda: t.center_coordinates(mass_weighted=(which == "center(mass)")), st, True)
+            self.ctx.check(r is t, "history.presence", f"{which}:returns-other-object", "center_coordinates did not return self")
+            self.judge_inplace(which, t, m)
+        elif which.startswith("superpose"):
+            if m.na < 4:
+                self.ctx.skip("history.refused", "superpose: fewer than 4 atoms (rotation not determined)")
+                return
+            s = t.slice(slice(None))  # a copy: the pool keeps its self-identifying coordinates
+            if which == "superpose(self)":
+                r = self.attempt(which, lambda: s.superpose(s), st, True)  # reference = the object itself
+            else:
+                idx = sorted(rng.choice(m.na, int(rng.integers(min(3, m.na), m.na + 1)), replace=False).tolist())
+                r = self.attempt(which, lambda: s.superpose(t, frame=int(rng.integers(m.nf)), atom_indices=idx, parallel=bool(rng.random() < 0.5)), st, True)
+            self.ctx.check(r is s, "history.presence", "superpose:returns-other-object", "superpose did not return self")
+            self.judge_new(which, s, m, add=False)
+            # the reference must keep its cell as well
+            self.judge_inplace(which + ":reference", t, m)
+        elif which.startswith("smooth"):
+            if m.nf < 3:
+                self.ctx.skip("history.refused", "smooth: fewer than 3 frames (filter padding)")
+                return
+            order = 3 if m.nf >= 9 and rng.random() < 0.5 else 1
+            kw = dict(width=3, order=order)
+            if which == "smooth(atoms)":
+                kw["atom_indices"] = sorted(rng.choice(m.na, int(rng.integers(1, m.na + 1)), replace=False).tolist())
+            if which == "smooth(inplace)":
+                self.attempt(which, lambda: t.smooth(inplace=True, **kw), st, True)
+                self.judge_inplace(which, t, m)
+            else:
+                r = self.attempt(which, lambda: t.smooth(**kw), st, True)
+                self.judge_new(which, r, m)
+        elif which.startswith("image") or which.startswith("whole"):
+            s = t.slice(slice(None))
+            inplace = which.endswith("(inplace)")
+            if which.startswith("image"):
+                anchors = [{s.topology.atom(0)}]
+                fn = lambda: s.image_molecules(inplace=inplace, anchor_molecules=anchors, make_whole=(which != "image(no-whole)"))
+            else:
+                fn = lambda: s.make_molecules_whole(inplace=inplace)
+            r = self.attempt(which, fn, st, must_work=m.complete)
+            if not m.complete:
+                # it did not refuse: whatever came out must not claim a complete cell
+                self.judge(which + "(no-cell)", r, Shadow(m.nf, m.na), m.state)
+                return
+            if inplace:
+                self.ctx.check(r is s, "history.presence", f"{which}:returns-other-object", f"{which} did not return self")
+            self.judge_new(which, r, m, add=False)
+            if not inplace:
+                self.judge_new(which + ":source", s, m, add=False)
+        elif which.startswith("remove_solvent"):
+            inplace = which == "remove_solvent(inplace)"
+            kw = dict(exclude=["HOH"]) if which == "remove_solvent(exclude)" else {}
+            na2 = m.na if kw else nprot
+            if na2 == 0:
+                self.ctx.skip("history.refused", "remove_solvent: every atom is solvent")
+                return
+            r = self.attempt(which, lambda: t.remove_solvent(inplace=inplace, **kw), st, True)
+            if inplace:
+                m.na = na2
+                self.judge_inplace(which, t, m)
+            else:
+                self.judge_new(which, r, m, na=na2)
+        elif which.startswith("restrict_atoms"):
+            keep = sorted(rng.choice(m.na, int(rng.integers(1, m.na + 1)), replace=False).tolist())
+            if which == "restrict_atoms":  # documented default: inplace=True
+                r = self.attempt(which, lambda: t.restrict_atoms(keep), st, True)
+                self.ctx.check(r is t, "history.presence", "restrict_atoms:returns-other-object", "restrict_atoms() (inplace by default) did not return self")
+                m.na = len(keep)
+                self.judge_inplace(which, t, m)
+            else:
+                r = self.attempt(which, lambda: t.restrict_atoms(np.array(keep), inplace=False), st, True)
+                self.judge_new(which, r, m, na=len(keep))
+        elif which == "xyz=":
+            t.xyz = t.xyz + np.float32(1.0 / 256.0)
+            self.judge_inplace(which, t, m)
+        elif which == "time=":
+            t.time = t.time + 1.0
+            self.judge_inplace(which, t, m)
+        elif which == "deepcopy":
+            r = self.attempt(which, lambda: copy.deepcopy(t), st, True)
+            self.judge_new(which, r, m)
+        elif which in ("lengths[k,j]*=", "angles[k,j]="):
+            # the getters hand out the stored arrays: an edit of one entry must show in vectors and volumes ("derived on access")
+            if not m.complete:
+                self.ctx.skip("history.refused", "in-place edit of a stored cell entry: needs a complete cell")
+                return
+            # on a private copy: other members of the pool may share the stored arrays (slice(copy=False), stack)
+            t, m = t.slice(slice(None)), m.derive(m.L.copy(), m.A.copy())
+            _ = t.unitcell_vectors, t.unitcell_volumes  # anything remembered from before the edit is stale afterwards
+            k, j = int(rng.integers(m.nf)), int(rng.integers(3))
+            if which == "lengths[k,j]*=":
+                t.unitcell_lengths[k, j] *= np.float32(1.5)
+                m.L[k, j] = float(np.float32(m.L[k, j]) * np.float32(1.5))
+            else:
+                new = np.float32(90.0 if m.A[k, j] != 90.0 else 80.0)
+                A2 = m.A[k].copy()
+                A2[j] = float(new)
+                if not oc.gram_D(A2) > 0.05:
+                    self.ctx.skip("history.refused", "in-place edit would leave the domain of valid cells")
+                    return
+                t.unitcell_angles[k, j] = new
+                m.A[k, j] = float(new)
+            self.judge_inplace(which, t, m)
+
+    def op_setter2(self, t, m, which=None):
+        rng = self.rng
+        which = which or SETTER2[int(rng.integers(len(SETTER2)))]
+        nf = m.nf
+        L, A = self.cells(nf)
+        self.ctx.observe("history.op", "set:" + which)
+        self.trace.append(which)
+        fld, form = which.split("=")
+        if fld in ("L", "A"):
+            X = L if fld == "L" else A
+            if form == "int":
+                X = np.round(X) + (1.0 if fld == "L" else 0.0)
+                if fld == "A" and not np.all(oc.gram_D(X) > 0.05):
+                    X = np.full((nf, 3), 90.0)
+                val = X.astype(np.int64)
+            elif form == "tuple":
+                val = tuple(map(tuple, X.tolist()))
+            elif form == "noncontig":
+                val = _array_form(X, "noncontig")
+            else:
+                val = np.asfortranarray(X.astype(np.float32))
+            if fld == "L":
+                t.unitcell_lengths = val
+                m.L = X.astype(np.float32).astype(np.float64)
+            else:
+                t.unitcell_angles = val
+                m.A = X.astype(np.float32).astype(np.float64)
+        else:
+            B = oc.vectors64(L, A)
+            W = np.einsum("nij,nkj->nik", B, _rotations(rng, ["random", "identity", "axisperm", "halfturn"][int(rng.integers(4))], nf))
+            if rng.random() < 0.5:
+                W = W.astype(np.float32)
+            if form == "onezero-frame":
+                # one frame without a cell among frames with one is not a physically valid per-frame cell: outside the
+                # domain; the all-zero rule of the setter speaks about the whole array only
+                self.ctx.skip("history.refused", "unitcell_vectors with some all-zero frames: outside the property's domain")
+                return
+            t.unitcell_vectors = _array_form(W, form)
+            m.L, m.A = L.copy(), A.copy()
+            m.nconv, m.qL, m.qA, m.qAc = 1, 0.0, 0.0, 0.0
+        want = (m.L is not None, m.A is not None)
+        got = (t.unitcell_lengths is not None, t.unitcell_angles is not None)
+        if want != got:
+            self.ctx.violation("history.presence", f"set:{which}:presence", f"after {which}: lengths present={got[0]} angles present={got[1]}, model says {want}", history=self.trace[-12:])
+            return
+        if m.complete:
+            out = self.judge("set:" + which, t, m.derive(m.L, m.A), m.state)
+            if out is not None:
+                m.assign(out)
+        else:
+            self.ctx.ok("history.presence")
+            self.getters("set:" + which, t, m)
+
+    def op_slice2(self, t, m, kind=None):
+        rng = self.rng
+        nf = m.nf
+        kind = kind or SLICE2[int(rng.integers(len(SLICE2)))]
+        if kind == "np.int64":
+            key = np.int64(rng.integers(-nf, nf))
+        elif kind == "int32-array":
+            key = rng.integers(-nf, nf, int(rng.integers(1, 7))).astype(np.int32)
+        elif kind == "negstep-bounds":
+            hi = int(rng.integers(0, nf))
+            key = slice(hi, None if rng.random() < 0.5 else -nf - 1, -int(rng.integers(1, 4)))
+        elif kind == "full":
+            key = slice(None)
+        else:
+            key = -1
+        idx = np.atleast_1d(np.arange(nf)[key])
+        how = ["getitem", "slice", "slice(copy=False)"][int(rng.integers(3))]
+        self.ctx.observe("history.op", f"{how}[{kind}]")
+        self.trace.append(f"{how}[{kind}:{key}]")
+        fn = (lambda: t[key]) if how == "getitem" else ((lambda: t.slice(key)) if how == "slice" else (lambda: t.slice(key, copy=False)))
+        r = self.attempt(f"{how}[{kind}]", fn, [m.state], True)
+        self.judge_new(how, r, m, nf=len(idx), rows=idx)
+
+    def op_join2(self, t, m, how=None):
+        rng = self.rng
+        how = how or JOIN2[int(rng.integers(len(JOIN2)))]
+        md = self.md
+        self.ctx.observe("history.op", how)
+        if how in ("join(self)", "add(self)", "md.join(single)"):
+            if how != "md.join(single)" and 2 * m.nf > MAX_FRAMES:
+                return
+            self.trace.append(f"{how}({m.state})")
+            fn = {"join(self)": lambda: t.join(t), "add(self)": lambda: t + t, "md.join(single)": lambda: md.join([t])}[how]
+            r = self.attempt(how, fn, [m.state], True)
+            rows = np.arange(m.nf) if how == "md.join(single)" else np.concatenate([np.arange(m.nf)] * 2)
+            self.judge_new(how, r, m, nf=len(rows), rows=rows, add=(r is not t))
+            return
+        nother = 2 if how.startswith("md.join") or how.startswith("join(list") else 1
+        others = []
+        for _ in range(nother):
+            for _try in range(6):
+                o, mo = self.variant(t, m)
+                if mo.complete == m.complete and mo.state == m.state:
+                    break
+            else:
+                return
+            others.append((o, mo))
+        trajs = [t] + [o for o, _ in others]
+        models = [m] + [mo for _, mo in others]
+        if sum(x.nf for x in models) > MAX_FRAMES:
+            return
+        states = [x.state for x in models]
+        self.trace.append(f"{how}({'+'.join(states)})")
+        drops = [False] * len(models)
+        if "check_topology=False" in how:
+            for o in trajs[1:]:
+                o.topology = common.simple_topology(m.na, element="N")
+        if how == "join(check_topology=False)":
+            fn = lambda: t.join(trajs[1], check_topology=False)
+        elif how == "md.join(check_topology=False)":
+            fn = lambda: md.join(trajs, check_topology=False)
+        elif how == "md.join(tuple)":
+            fn = lambda: md.join(tuple(trajs))
+        elif how == "md.join(generator)":
+            fn = lambda: md.join(x for x in trajs)
+        else:
+            # every later trajectory starts with a copy of its predecessor's last frame
+            for k in range(1, len(trajs)):
+                xyz = trajs[k].xyz.copy()
+                xyz[0] = trajs[k - 1].xyz[-1]
+                trajs[k].xyz = xyz
+                drops[k - 1] = True
+            if how.startswith("join(list"):
+                fn = lambda: t.join(trajs[1:], discard_overlapping_frames=True)  # one call, a trajectory in the middle loses a frame
+            else:
+                fn = lambda: md.join(trajs, discard_overlapping_frames=True)  # pairwise
+        r = self.attempt(how, fn, states, True)
+        if all(x.complete for x in models):
+            Ls = [x.L[:-1] if d else x.L for x, d in zip(models, drops)]
+            As = [x.A[:-1] if d else x.A for x, d in zip(models, drops)]
+            exp = Shadow(sum(len(x) for x in Ls), m.na, np.concatenate(Ls), np.concatenate(As), max(x.nconv for x in models),
+                         max(x.qL for x in models), max(x.qA for x in models), max(x.qAc for x in models))
+        else:
+            exp = Shadow(sum(x.nf for x in models) - sum(drops), m.na)
+        out = self.judge(how, r, exp, "+".join(sorted(set(states))))
+        if out is not None and "check_topology=False" not in how:
+            self.add(r, out)
+
+    def op_stack2(self, t, m, how=None):
+        rng = self.rng
+        how = how or STACK2[int(rng.integers(len(STACK2)))]
+        self.ctx.observe("history.op", how)
+        if 2 * m.na > 16:
+            return
+        if how == "stack(self)":
+            self.trace.append(f"stack(self)[{m.state}]")
+            r = self.attempt(how, lambda: t.stack(t), [m.state], True)
+            self.judge_new(how, r, m, na=2 * m.na, add=False)
+            return
+        o, mo = self.variant(t, m, nf=m.nf)
+        self.ctx.observe("history.stack-states", f"{m.state}|{mo.state}")
+        self.trace.append(f"{how}({m.state}|{mo.state})")
+        r = self.attempt(how, lambda: t.stack(o, keep_resSeq=False), [m.state, mo.state], True)
+        self.judge_new(how, r, m, na=m.na + mo.na, add=False)
+
+    def op_atoms2(self, t, m, how=None):
+        rng = self.rng
+        how = how or ATOMS2[int(rng.integers(len(ATOMS2)))]
+        self.ctx.observe("history.op", how)
+        k = int(rng.integers(1, m.na + 1))
+        if how == "atom_slice(range)":
+            keep = range(0, k)
+        elif how == "atom_slice(unsorted)":
+            keep = rng.permutation(m.na)[:k].tolist()
+        else:
+            keep = np.sort(rng.choice(m.na, k, replace=False)).astype(np.int32)
+        self.trace.append(f"{how}({list(keep)})")
+        if how == "atom_slice(inplace,array)":
+            r = self.attempt(how, lambda: t.atom_slice(keep, inplace=True), [m.state], True)
+            m.na = k
+            self.judge_inplace(how, t, m)
+            return
+        r = self.attempt(how, lambda: t.atom_slice(keep), [m.state], True)
+        self.judge_new(how, r, m, na=k, add=False)
+
+    # ---- save / load matrix
+    def low_write(self, fmt, fn, t, m, chunks, form, via_open=False, reopen=False):
+        """the format's own file object: write(...) called once per chunk, cell handed over as lengths/angles or box.
+        via_open: the handle comes from md.open(path, 'w'); reopen (h5): the handle is closed after the first chunk and
+        the file reopened in append mode for the rest"""
+        from mdtraj import formats as F
+        if via_open:
+            class _Open:  # same call shape as the classes below
+                def __getattr__(_, name):
+                    return lambda path, mode="w": self.md.open(path, mode)
+            F = _Open()
+            self.ctx.observe("io.low-level-handle", "md.open")
+        base = EXT_ALIASES.get(fmt, fmt)
+        xyz, time, top = t.xyz, t.time, t.topology
+        L = None if m.L is None else m.L
+        A = None if m.A is None else m.A
+        B = oc.vectors64(L, A) if m.complete else None
+
+        def cell(s, x, scale=1.0):
+            if x is None:
+                return None
+            v = _conv(x[s] * scale, form)
+            if len(x[s]) == 1 and form != "noncontig" and self.rng.random() < 0.5:
+                v = v[0]  # documented: arrays deficient by one dimension mean a single frame
+            return v
+        if reopen and base == "h5" and len(chunks) > 1:  # NetCDFTrajectoryFile offers modes 'r' and 'w' only
+            self.ctx.observe("io.low-level-handle", f"{base}:reopened-in-append-mode")
+            groups = [("w", chunks[:1]), ("a", chunks[1:])]
+        else:
+            groups = [("w", chunks)]
+        if base == "h5":
+            for mode, cs in groups:
+                with F.HDF5TrajectoryFile(fn, mode=mode) as f:
+                    for s in cs:
+                        f.write(coordinates=xyz[s], time=time[s], cell_lengths=cell(s, L), cell_angles=cell(s, A))
+                    if mode == "w":
+                        f.topology = top
+        elif base == "nc":
+            for mode, cs in groups:
+                with F.NetCDFTrajectoryFile(fn, mode=mode) as f:
+                    for s in cs:
+                        f.write(coordinates=xyz[s] * 10, time=time[s], cell_lengths=cell(s, L, 10.0), cell_angles=cell(s, A))
+        elif base == "dcd":
+            with F.DCDTrajectoryFile(fn, mode="w") as f:
+                for s in chunks:
+                    f.write(xyz[s] * 10, cell_lengths=cell(s, L, 10.0), cell_angles=cell(s, A))
+        elif base == "dtr":
+            with F.DTRTrajectoryFile(fn, mode="w") as f:
+                for s in chunks:
+                    f.write(xyz[s] * 10, cell_lengths=cell(s, L, 10.0), cell_angles=cell(s, A), times=np.asarray(time[s], np.float64))
+        elif base == "lammpstrj":
+            with F.LAMMPSTrajectoryFile(fn, mode="w") as f:
+                for s in chunks:
+                    if m.complete and np.all(A[s] == 90.0) and self.rng.random() < 0.5:
+                        f.write(xyz[s] * 10, cell(s, L, 10.0))  # documented default: cell_angles=None means 90 degrees
+                    else:
+                        f.write(xyz[s] * 10, cell(s, L, 10.0), cell(s, A))
+        elif base == "mdcrd":
+            with F.MDCRDTrajectoryFile(fn, mode="w") as f:
+                for s in chunks:
+                    f.write(xyz[s] * 10, cell(s, L, 10.0))
+        elif base in ("xtc", "trr"):
+            cls = F.XTCTrajectoryFile if base == "xtc" else F.TRRTrajectoryFile
+            with cls(fn, mode="w") as f:
+                for s in chunks:
+                    f.write(xyz[s], time=time[s], box=cell(s, B))
+        elif base == "gro":
+            with F.GroTrajectoryFile(fn, mode="w") as f:
+                for s in chunks:
+                    f.write(xyz[s], top, time[s], unitcell_vectors=None if B is None else np.asarray(_conv(B[s], "float64" if form == "list" else form)))
+        elif base == "pdb":
+            with F.PDBTrajectoryFile(fn, mode="w") as f:
+                f._multi_model = t.n_frames > 1
+                for i in range(t.n_frames):
+                    kw = {} if not m.complete else dict(unitcell_lengths=tuple(float(q) * 10 for q in L[i]), unitcell_angles=tuple(float(q) for q in A[i]))
+                    f.write(xyz[i] * 10, top, modelIndex=i, **kw)
+        elif base in ("rst7", "ncrst"):
+            cls = F.AmberRestartFile if base == "rst7" else F.AmberNetCDFRestartFile
+            with cls(fn, mode="w") as f:
+                f.write(xyz[0] * 10, time=float(time[0]), cell_lengths=cell(slice(0, 1), L, 10.0), cell_angles=cell(slice(0, 1), A))
+        else:
+            raise Refused()
+
+    def as_traj(self, base, res, na):
+        """what a file object's read() returned -> (lengths nm, angles deg) through a one-atom trajectory; None = no cell"""
+        md = self.md
+        u = UNIT[base]
+        if base == "h5":
+            cl, ca, box = res.cell_lengths, res.cell_angles, None
+        elif base in ("nc", "dtr", "rst7", "ncrst"):
+            cl, ca, box = res[2], res[3], None
+        elif base in ("dcd", "lammpstrj"):
+            cl, ca, box = res[1], res[2], None
+        elif base == "mdcrd":
+            cl, box = res[1], None
+            ca = None if cl is None else np.full(np.shape(cl), 90.0)
+        elif base in ("xtc", "trr"):
+            cl = ca = None
+            box = res[3]
+        elif base == "gro":
+            cl = ca = None
+            box = res[2]
+        else:
+            raise Refused()
+        nf = len(res[0]) if base != "h5" else len(res.coordinates)
+        if base in ("rst7", "ncrst"):
+            nf = 1
+        r = md.Trajectory(np.zeros((nf, 1, 3), np.float32), common.simple_topology(1))
+        if box is not None:
+            r.unitcell_vectors = np.asarray(box)  # all-zero box = no cell (documented in the xtc/trr writers)
+        elif cl is not None and ca is not None:
+            r.unitcell_lengths = np.asarray(cl, np.float64).reshape(nf, 3) / u
+            r.unitcell_angles = np.asarray(ca, np.float64).reshape(nf, 3)
+        elif (cl is None) != (ca is None):
+            self.ctx.violation("history.presence", f"raw-read:{base}:half-set-returned", f"{base} read() returned lengths={cl is not None} angles={ca is not None}")
+        return r
+
+    def op_io(self, t, m, fmt=None, writer=None, loader=None):
+        rng = self.rng
+        md = self.md
+        ctx = self.ctx
+        if fmt is None:
+            fmts = [f for f in IO_FORMATS if m.nf == 1 or f not in SINGLE_FRAME_FORMATS]
+            fmt = fmts[int(rng.integers(len(fmts)))]
+        writer = writer or IO_WRITERS[int(rng.integers(len(IO_WRITERS)))]
+        loader = loader or IO_LOADERS[int(rng.integers(len(IO_LOADERS)))]
+        base = EXT_ALIASES.get(fmt, fmt)
+        nf, na = m.nf, m.na
+        single = base in ("rst7", "ncrst")
+        if base == "mdcrd" and na == 1:
+            ctx.skip("history.refused", "mdcrd with one atom: a coordinate line is byte-identical to a box line (headerless format)")
+            return
+        # ---- combinations that do not exist / are known to be broken for reasons outside this property
+        if single and (loader not in ("load", "load_x", "load(atom_indices)", "raw", "read_as_traj") or writer in ("low-chunks", "low-frames")):
+            loader = "load" if loader not in ("load", "load_x", "load(atom_indices)", "raw", "read_as_traj") else loader
+            writer = "save" if writer in ("low-chunks", "low-frames") else writer
+        if base == "pdb" and loader in ("read_as_traj", "raw"):
+            loader = "load_x"
+        if base == "pdb" and writer in ("low-chunks",):
+            writer = "low"
+        if base == "xyz" and writer.startswith("low"):
+            writer = "save_x"
+        if base == "dtr" and loader in ("frame", "load_frame", "iterload", "iterload(skip,stride)", "iterload(default)", "read_as_traj", "raw"):
+            ctx.skip("history.refused", "dtr: read(n_frames) ignores n_frames (recorded under C02); frame= / iterload / partial reads not drawn")
+            loader = "load(stride)"
+        if base == "gro" and loader in ("frame", "load_frame"):
+            ctx.skip("history.refused", "gro: load(frame=) raises NotImplementedError (not offered)")
+            loader = "load"
+        if base in ("xtc", "trr") and loader == "iterload(skip,stride)":
+            ctx.skip("history.refused", "xtc/trr: iterload(skip>0) is recorded under C02 (seek by frames); skip not drawn")
+            loader = "iterload"
+        if loader in ("list", "list(discard)") and (nf < 2 or single):
+            loader = "load"
+        if loader in ("load(stride)",) and nf < 2:
+            loader = "load"
+        self.nfile += 1
+        fn = os.path.join(self.tmp, f"Cell_F{self.nfile}.{fmt}")
+        # mechanism key: format x writer family x loader family (the exact combination is in the history / observations)
+        wfam = "save" if writer in ("save", "save_x") else "fileobj-write"
+        lfam = ("load" if loader in ("load", "load_x", "list", "list(discard)") else "load-partial" if loader in ("load(stride)", "load(atom_indices)", "frame", "load_frame")
+                else "iterload" if loader.startswith("iterload") else "fileobj-read")
+        op = f"io:{base}:{wfam}:{lfam}"
+        ctx.observe("history.op", "io")
+        ctx.observe("io.format", f"{fmt}:{m.state}")
+        ctx.observe("io.writer", f"{base}:{writer}")
+        ctx.observe("io.loader", f"{base}:{loader}")
+        ctx.observe("io.frames", ">256" if nf > 256 else (">100" if nf > 100 else ("==100" if nf == 100 else "<100")))
+        self.trace.append(f"io:{fmt}:{writer}:{loader}[{m.state}]")
+        skewed = m.complete and not np.all(m.A == 90.0)
+        must = not (base == "mdcrd" and skewed) and not (base in ("lammpstrj", "dtr") and not m.complete)
+        if base == "mdcrd" and skewed and writer.startswith("low"):
+            writer = "save"  # the file object takes lengths only; Trajectory.save states the refusal
+        top = None if base in NO_TOP else t.topology
+        rows = np.arange(nf)
+        files = [(fn, t, m, rows)]
+        if loader in ("list", "list(discard)"):
+            split_k = k = int(rng.integers(1, nf))
+            lo = k - 1 if loader == "list(discard)" else k  # the second file starts with the first file's last frame
+            r1, r2 = np.arange(0, k), np.arange(lo, nf)
+            files = []
+            for tag, rr in (("a", r1), ("b", r2)):
+                files.append((os.path.join(self.tmp, f"Cell_F{self.nfile}{tag}.{fmt}"), t.slice(rr), m.derive(None if m.L is None else m.L[rr], None if m.A is None else m.A[rr], nf=len(rr)), rr))
+            rows = np.concatenate([r1, np.arange(k, nf)]) if loader == "list(discard)" else np.concatenate([r1, r2])
+        # ---- write
+        form = ["float64", "float32", "list", "noncontig"][int(rng.integers(4))]
+        appended = False
+        for path, tt, mm, _ in files:
+            if writer == "save" or (writer.startswith("low") and mm.state not in ("complete", "none")):
+                self.attempt(op + ":save", lambda: tt.save(path), [m.state], must_work=must)
+            elif writer == "save_x":
+                if rng.random() < 0.5 and base != "dtr":
+                    open(path, "w").write("stale content of an earlier run\n")  # force_overwrite=True (the default) must replace it
+                if base == "h5":
+                    if rng.random() < 0.4 and len(files) == 1 and 2 * nf <= 600:
+                        def fnw():
+                            tt.save_hdf5(path, mode="w")
+                            tt.save_hdf5(path, mode="a")
+                        appended = True
+                    else:
+                        fnw = lambda: tt.save_hdf5(path, mode="w", force_overwrite=True)
+                elif base == "gro":
+                    fnw = lambda: tt.save_gro(path, precision=int(rng.integers(3, 7)))
+                elif base == "pdb":
+                    opt = int(rng.integers(3))
+                    fnw = lambda: tt.save_pdb(path, header=(opt != 0), ter=(opt != 1), bfactors=(np.linspace(0, 9, tt.n_atoms) if opt == 2 else None))
+                else:
+                    saver = {"xtc": "save_xtc", "trr": "save_trr", "dcd": "save_dcd", "nc": "save_netcdf", "lammpstrj": "save_lammpstrj", "mdcrd": "save_mdcrd",
+                             "dtr": "save_dtr", "xyz": "save_xyz", "rst7": "save_amberrst7", "ncrst": "save_netcdfrst"}[base]
+                    fnw = lambda: getattr(tt, saver)(path, force_overwrite=True)
+                self.attempt(op + ":save", fnw, [m.state], must_work=must)
+            else:
+                n_ = tt.n_frames
+                if writer == "low":
+                    chunks = [slice(0, n_)]
+                elif writer == "low-frames":
+                    chunks = [slice(i, i + 1) for i in range(n_)] if n_ <= 40 else [slice(0, n_ - 1), slice(n_ - 1, n_)]
+                else:
+                    k = int(rng.integers(1, max(2, n_)))
+                    chunks = [s for s in (slice(0, k), slice(k, n_)) if s.stop > s.start]
+                ctx.observe("io.low-level-cell-form", form)
+                via_open, reopen = bool(rng.random() < 0.4), bool(rng.random() < 0.5)
+                self.attempt(op + ":write", lambda: self.low_write(fmt, path, tt, mm, chunks, form, via_open, reopen), [m.state], must_work=must)
+        if appended:
+            rows = np.concatenate([rows, rows])
+        if m.state not in ("complete", "none"):
+            ctx.observe("history.half-set-saved", fmt)
+        # ---- extensions only the loaders know (.hdf5, .restrt, .inpcrd): the same bytes under another name
+        # (md.load('x.hdf5') itself fails while looking for a topology reader for '.hdf5' - not a cell matter; the alias is
+        #  only handed to md.load_hdf5)
+        if len(files) == 1 and (base == "rst7" or (base == "h5" and loader == "load_x")) and rng.random() < 0.35 and os.path.exists(fn):
+            alias = fn[:-len(fmt)] + ({"h5": ["hdf5"], "rst7": ["restrt", "inpcrd"]}[base][int(rng.integers(1 if base == "h5" else 2))])
+            shutil.copy(fn, alias)
+            fn = alias
+            ctx.observe("io.load-extension-alias", alias.rsplit(".", 1)[1])
+        # ---- read
+        kwt = {} if top is None else dict(top=top)
+        results = []  # (trajectory, rows of the saved trajectory it must hold, n_atoms)
+
+        def sub_atoms():
+            return sorted(rng.choice(na, int(rng.integers(1, na)), replace=False).tolist()) if na >= 2 else None
+        if loader == "load":
+            r = self.attempt(op + ":load", lambda: md.load(fn, **kwt), [m.state], True)
+            results.append((r, rows, na))
+        elif loader == "load_x":
+            lf = {"h5": md.load_hdf5, "xtc": md.load_xtc, "trr": md.load_trr, "dcd": md.load_dcd, "nc": md.load_netcdf, "pdb": md.load_pdb, "lammpstrj": md.load_lammpstrj,
+                  "mdcrd": md.load_mdcrd, "dtr": md.load_dtr, "xyz": md.load_xyz, "rst7": md.load_restrt, "ncrst": md.load_ncrestrt, "gro": md.formats.gro.load_gro}[base]
+            r = self.attempt(op + ":load", lambda: lf(fn, **kwt), [m.state], True)
+            results.append((r, rows, na))
+        elif loader == "load(stride)":
+            s = int(rng.integers(2, 5))
+            keep = sub_atoms() if (base != "trr" and rng.random() < 0.3) else None  # trr: stride + atom subset is a recorded heap overflow (C02)
+            akw = {} if keep is None else dict(atom_indices=keep)
+            r = self.attempt(op + ":load", lambda: md.load(fn, stride=s, **akw, **kwt), [m.state], True)
+            results.append((r, rows[::s], na if keep is None else len(keep)))
+        elif loader == "load(atom_indices)":
+            keep = sub_atoms()
+            kind = int(rng.integers(2))
+            r = self.attempt(op + ":load", lambda: md.load(fn, atom_indices=(keep if kind or keep is None else np.array(keep)), **kwt), [m.state], True)
+            results.append((r, rows, na if keep is None else len(keep)))
+        elif loader in ("frame", "load_frame"):
+            k = int(rng.integers(len(rows))) if rng.random() < 0.7 else len(rows) - 1
+            keep = sub_atoms() if (loader == "load_frame" and rng.random() < 0.5) else None
+            if loader == "frame":
+                r = self.attempt(op + ":load", lambda: md.load(fn, frame=k, **kwt), [m.state], True)
+            else:
+                r = self.attempt(op + ":load", lambda: md.load_frame(fn, k, atom_indices=keep, **kwt), [m.state], True)
+            results.append((r, rows[k:k + 1], na if keep is None else len(keep)))
+        elif loader.startswith("iterload"):
+            kw = dict(kwt)
+            sk, st = 0, 1
+            if loader == "iterload":
+                kw["chunk"] = ch = int(rng.integers(1, 5)) if nf < 50 else [50, 100, 64][int(rng.integers(3))]
+                if rng.random() < 0.3 and base != "trr":
+                    kw["atom_indices"] = sub_atoms()
+            elif loader == "iterload(default)":
+                ch = 100  # documented default
+            else:
+                kw["chunk"] = ch = int(rng.integers(1, 4)) if nf < 50 else 100
+                sk, st = int(rng.integers(0, max(1, min(nf, 4)))), int(rng.integers(1, 4))
+                kw["skip"], kw["stride"] = sk, st
+            nat = na if kw.get("atom_indices") is None else len(kw["atom_indices"])
+            want = rows[sk::st]
+            chunks = self.attempt(op + ":iterload", lambda: list(itertools.islice(md.iterload(fn, **kw), len(rows) + 3)), [m.state], True)
+            got_n = [c.n_frames for c in chunks]
+            exp_n = [min(ch, len(want) - i) for i in range(0, len(want), ch)]
+            if got_n != exp_n:
+                if base == "pdb" or sum(got_n) != len(want):
+                    ctx.violation("history.presence", f"io:{base}:iterload:chunk-sizes", f"{op}: iterload chunks hold {got_n} frames, the options ask for {exp_n}", history=self.trace[-12:])
+                    return
+                ctx.skip("history.refused", f"{base}: iterload chunk sizes {got_n[:4]} differ from the request (a C02 matter); cells judged per chunk as delivered")
+            pos = 0
+            for c in chunks:
+                results.append((c, want[pos:pos + c.n_frames], nat))
+                pos += c.n_frames
+        elif loader == "read_as_traj":
+            s = int(rng.integers(1, 4))
+            keep = sub_atoms() if (rng.random() < 0.4 and not (base == "trr" and s > 1)) else None
+            n1 = int(rng.integers(1, max(2, len(rows))))
+
+            def rat():
+                okw = dict(n_atoms=na) if base == "mdcrd" else {}
+                with md.open(fn, **okw) as f:
+                    if single:
+                        return [f.read_as_traj(t.topology, atom_indices=keep)]
+                    a = [] if top is None else [top]
+                    first = f.read_as_traj(*a, n_frames=n1, stride=s, atom_indices=keep)
+                    try:
+                        rest = f.read_as_traj(*a, stride=s, atom_indices=keep)  # continues where the first call stopped
+                    except ValueError as e:
+                        if "need at least one array" not in str(e):
+                            raise
+                        rest = None  # trr: a read at the end of the file raises (recorded under C18), not a cell matter
+                    return [first, rest]
+            out = self.attempt(op + ":read_as_traj", rat, [m.state], True)
+            nat = na if keep is None else len(keep)
+            if single:
+                results.append((out[0], rows, nat))
+            else:
+                got = out[0].n_frames
+                results.append((out[0], rows[::s][:got], nat))
+                # the position after a strided read is a C02/C18 matter; the cells of the remainder are judged where that is unambiguous
+                if s == 1 and out[1] is not None and out[1].n_frames > 0:
+                    results.append((out[1], rows[got:got + out[1].n_frames], nat))
+        elif loader == "raw":
+            def raw():
+                okw = dict(n_atoms=na) if base == "mdcrd" else {}
+                with md.open(fn, **okw) as f:
+                    return f.read()
+            res = self.attempt(op + ":read", raw, [m.state], True)
+            results.append((self.as_traj(base, res, na), rows, 1))
+        else:
+            paths = [p for p, _, _, _ in files]
+            r = self.attempt(op + ":load", lambda: md.load(paths, discard_overlapping_frames=(loader == "list(discard)"), **kwt), [m.state], True)
+            results.append((r, rows, na))
+        # ---- judge
+        for r, rr, nat in results:
+            if base in NO_CELL_FORMATS:
+                if r.unitcell_lengths is not None and r.unitcell_angles is not None:
+                    ctx.violation("history.presence", f"io:{base}:cell-from-nowhere", f"{op}: the format stores no cell, the loaded trajectory has one", history=self.trace[-12:])
+                elif m.complete:
+                    ctx.skip("history.presence", f"{base} stores no cell: a complete cell cannot survive")
+                else:
+                    ctx.ok("history.presence")
+                continue
+            if m.complete:
+                qL, qA, qAc = self.quantum(base, t, m)
+                exp = Shadow(len(rr), nat, m.L[rr], m.A[rr], m.nconv + 1, m.qL + qL, m.qA + qA, m.qAc + qAc)
+                if base == "pdb" and (np.any(m.L != m.L[0]) or np.any(m.A != m.A[0])):
+                    # one CRYST1 record per file: only the first frame of each file is known to carry its own cell
+                    if len(files) == 1:
+                        exp.rows = rr == 0
+                    else:
+                        exp.rows = np.zeros(len(rr), bool)
+                        exp.rows[0] = True
+                        exp.rows[split_k - 1 if loader == "list(discard)" else split_k] = True
+            else:
+                exp = Shadow(len(rr), nat)
+            self.judge(op, r, exp, m.state, base=op)
+
+    def step(self):
+        rng = self.rng
+        t, m = self.pick()
+        k = rng.random()
+        try:
+            if k < 0.08:
+                self.op_setter(t, m)
+            elif k < 0.16:
+                self.op_setter2(t, m)
+            elif k < 0.22:
+                self.op_slice(t, m)
+            elif k < 0.30:
+                self.op_slice2(t, m)
+            elif k < 0.34:
+                self.op_join(t, m)
+            elif k < 0.44:
+                self.op_join2(t, m)
+            elif k < 0.49:
+                self.op_stack2(t, m)
+            elif k < 0.55:
+                self.op_atoms2(t, m)
+            elif k < 0.75:
+                self.op_carry(t, m)
+            else:
+                self.op_io(t, m)
+        except Refused:
+            pass
+
+
+def run_history2(case, ctx):
+    tmp = tempfile.mkdtemp(prefix="c17-", dir="/var/tmp")
+    try:
+        h = History2(case, ctx, tmp)
+        for _ in range(2):
+            h.add(*h.fresh())
+        for _ in range(case["n_ops"]):
+            h.step()
+            if len(h.pool) < 2:
+                h.add(*h.fresh())
+    finally:
+        shutil.rmtree(tmp, ignore_errors=True)
+
+
+SWEEP_STATES = [[], [0], [2], [4], [4, 1], [4, 3], [0, 2], [2, 0, 5], [4, 6]]  # indices into SETTERS: none, L, A, V, V then L=None, ...
+
+
+def run_sweep2(case, ctx):
+    """every widened op once on every cell state (none / lengths-only / angles-only / complete reached in several ways)"""
+    tmp = tempfile.mkdtemp(prefix="c17-", dir="/var/tmp")
+    try:
+        h = History2(case, ctx, tmp)
+        nf = [1, 3, 5, 9][case["i"] % 4]
+        ctx.observe("sweep2.frames", nf)
+
+        def build():
+            t, m = h.fresh(nf=nf, na=5, state="none")
+            for s in case["seq"]:
+                h.op_setter(t, m, SETTERS[s])
+            return t, m
+        t, m = build()
+        ctx.observe("sweep2.state", m.state)
+        ops = [(lambda t, m, w=w: h.op_carry(t, m, w)) for w in CARRY_OPS]
+        ops += [(lambda t, m, w=w: h.op_slice2(t, m, w)) for w in SLICE2]
+        ops += [(lambda t, m, w=w: h.op_join2(t, m, w)) for w in JOIN2]
+        ops += [(lambda t, m, w=w: h.op_stack2(t, m, w)) for w in STACK2]
+        ops += [(lambda t, m, w=w: h.op_atoms2(t, m, w)) for w in ATOMS2]
+        ops += [(lambda t, m, w=w: h.op_setter2(t, m, w)) for w in SETTER2]
+        for op in ops:
+            h.pool = []
+            t, m = build()  # several ops work in place: every op starts from the state under test
+            try:
+                op(t, m)
+            except Refused:
+                pass
+    finally:
+        shutil.rmtree(tmp, ignore_errors=True)
+
+
+def run_io(case, ctx):
+    """one format x writer x loader combination on a trajectory built for it (cell pattern, frame count incl. > 100)"""
+    tmp = tempfile.mkdtemp(prefix="c17-", dir="/var/tmp")
+    try:
+        h = History2(case, ctx, tmp)
+        fmt = case["fmt"]
+        base = EXT_ALIASES.get(fmt, fmt)
+        nf = 1 if base in ("rst7", "ncrst") and not case.get("multi") else int(case["nf"])
+        state = case["state"]
+        if base in ("mdcrd",) or (base == "lammpstrj" and case.get("ortho")):
+            h.cellkind = "ortho"
+        t, m = h.fresh(nf=nf, na=int(case["na"]), state=state)
+        if case.get("multi"):
+            run_multi_restart(h, t, m, fmt)
+            return
+        try:
+            h.op_io(t, m, fmt, case["writer"], case["loader"])
+        except Refused:
+            pass
+    finally:
+        shutil.rmtree(tmp, ignore_errors=True)
+
+
+def run_multi_restart(h, t, m, fmt):
+    """rst7 / ncrst of several frames: numbered files <name>.<k>, each holding frame k-1 with ITS cell"""
+    md, ctx = h.md, h.ctx
+    fn = os.path.join(h.tmp, f"Multi.{fmt}")
+    op = f"io:{fmt}:save(numbered)"
+    ctx.observe("history.op", "io")
+    ctx.observe("io.format", f"{fmt}-numbered:{m.state}")
+    h.trace.append(op)
+    try:
+        t.save(fn)
+    except Exception as e:
+        label = _refusal(e)
+        if label is not None:
+            ctx.skip("history.refused", f"io: {label}")
+        else:
+            ctx.violation("history.presence", f"io:{fmt}:save-numbered-files:{m.state}:raises-{type(e).__name__}",
+                          f"{fmt}: saving {m.nf} frames (numbered files) with cell state {m.state} raised {type(e).__name__}: {str(e)[:200]}; one frame of the same trajectory saves", history=h.trace[-12:])
+        return
+    width = len(str(m.nf))
+    lf = md.load_restrt if fmt == "rst7" else md.load_ncrestrt
+    for k in range(m.nf):
+        path = f"{fn}.{k + 1:0{width}d}"
+        try:
+            r = h.attempt(op + ":load", lambda: lf(path, top=t.topology), [m.state], True)
+        except Refused:
+            continue
+        if m.complete:
+            qL, qA, qAc = h.quantum(fmt, t, m)
+            exp = Shadow(1, m.na, m.L[k:k + 1], m.A[k:k + 1], m.nconv + 1, m.qL + qL, m.qA + qA, m.qAc + qAc)
+        else:
+            exp = Shadow(1, m.na)
+        h.judge(op, r, exp, m.state, base=f"io:{fmt}:numbered")
+
+
+FOREIGN = ["dcd-degrees", "gro-3", "gro-9", "pdb-spacegroup", "pdb-p1", "pdb-bare", "lammpstrj-exp", "lammpstrj-flags", "arc", "rst7-velocities", "rst7-box-only",
+           "mdcrd", "trr-double", "trr-single-vf"]
+
+
+def run_foreign(case, ctx):
+    """cell-carrying files as other programs write them; judged against the cell that was written into them"""
+    import mdtraj as md
+    from vlib.gen import c17_files as ff
+    from vlib.gen import files as gf
+    rng = common.rng_for("C17foreign", case["seed"])
+    which = case["which"]
+    ctx.observe("foreign.kind", which)
+    tmp = tempfile.mkdtemp(prefix="c17-", dir="/var/tmp")
+    try:
+        h = History2(dict(case, cells="any"), ctx, tmp)
+        nf = 1 if which.startswith("rst7") else int(case["nf"])
+        na = int(rng.integers(3, 9))
+        ortho = which in ("gro-3", "mdcrd") or (which.startswith("lammpstrj") and rng.random() < 0.3)
+        if ortho:
+            h.cellkind = "ortho"
+        h.pattern = case.get("pattern")
+        L, A = h.cells(nf)
+        if which.startswith("pdb"):
+            L[:], A[:] = L[0], A[0]
+        top = common.simple_topology(na)
+        xyz = (0.25 * common.self_identifying_xyz(nf, na)).astype(np.float64)
+        B = oc.vectors64(L, A)
+        qL = qA = qAc = 0.0
+        Lmin = float(L.min())
+        kw = dict(top=top)
+        if which == "dcd-degrees":
+            t = md.Trajectory(xyz.astype(np.float32), top, unitcell_lengths=L, unitcell_angles=A)
+            src, fn = os.path.join(tmp, "src.dcd"), os.path.join(tmp, "Foreign.dcd")
+            t.save(src)
+            ff.dcd_cell_degrees(src, fn, na, nf, A)
+        elif which in ("gro-3", "gro-9"):
+            fn = os.path.join(tmp, "Foreign.gro")
+            ff.gro_write(fn, xyz, B, three=(which == "gro-3"))
+            hq = 5e-6 * np.sqrt(3.0) * 1.5
+            qL, qA, kw = 2 * hq, DEG * 2 * hq / Lmin, {}
+        elif which.startswith("pdb"):
+            fn = os.path.join(tmp, "Foreign.pdb")
+            ff.pdb_write(fn, xyz, L[0], A[0], variant=which.split("-")[1], models=nf > 1)
+            qL, qA, kw = 6e-5, 6e-3, {}
+        elif which.startswith("lammpstrj"):
+            fn = os.path.join(tmp, "Foreign.lammpstrj")
+            flags = "pp pp pp" if which == "lammpstrj-exp" else ["pp pp ff", "ff ff ff", "pp ss pp", "fm fm pp"][int(rng.integers(4))]
+            origin = tuple(rng.uniform(-30, 30, 3).round(3)) if which == "lammpstrj-flags" else (0.0, 0.0, 0.0)
+            ff.lammpstrj_write(fn, xyz, L, A, flags=flags, origin=origin, exponent=(which == "lammpstrj-exp" or rng.random() < 0.5))
+            q = 16 * EPS32 * (40.0 + 3 * float(L.max())) * 10 / 10
+            qL, qA, qAc = q, 0.0, DEG * 2 * q / Lmin
+        elif which == "arc":
+            fn = os.path.join(tmp, "Foreign.arc")
+            ff.arc_write(fn, xyz, L, A)
+            qL, qA, kw = 6e-8, 6e-7, {}
+        elif which.startswith("rst7"):
+            fn = os.path.join(tmp, "Foreign.rst7")
+            ff.rst7_write(fn, xyz[0], L[0], A[0], velocities=(which == "rst7-velocities"))
+            qL, qA = 1e-8 + 4 * EPS32 * float(L.max()), 1e-6
+        elif which == "mdcrd":
+            fn = os.path.join(tmp, "Foreign.mdcrd")
+            ff.mdcrd_write(fn, xyz, L)
+            qL = 6e-5
+        else:
+            fn = os.path.join(tmp, "Foreign.trr")
+            gf.trr_write_foreign(fn, xyz, box_nm=B, times=np.arange(nf) * 0.5, double=(which == "trr-double"), velocities=True, forces=bool(rng.random() < 0.5))
+        m = Shadow(nf, na, L, A, 0, qL, qA, qAc)
+        loader = case["loader"]
+        ctx.observe("foreign.loader", loader)
+        h.trace.append(f"foreign:{which}:{loader}")
+        rows = np.arange(nf)
+        try:
+            if loader == "load" or nf == 1 or which == "arc":
+                r = h.attempt(f"foreign:{which}:load", lambda: md.load(fn, **kw), ["complete"], True)
+            elif loader == "stride":
+                r = h.attempt(f"foreign:{which}:load(stride)", lambda: md.load(fn, stride=2, **kw), ["complete"], True)
+                rows = rows[::2]
+            elif loader == "frame" and not which.startswith("gro"):
+                k = int(rng.integers(nf))
+                r = h.attempt(f"foreign:{which}:load(frame)", lambda: md.load(fn, frame=k, **kw), ["complete"], True)
+                rows = rows[k:k + 1]
+            else:
+                ch = int(rng.integers(1, 4))
+                okw = dict(kw)
+                chunks = h.attempt(f"foreign:{which}:iterload", lambda: list(itertools.islice(md.iterload(fn, chunk=ch, **okw), nf + 3)), ["complete"], True)
+                if sum(c.n_frames for c in chunks) != nf:
+                    ctx.violation("history.presence", f"foreign:{which}:iterload:frame-count", f"iterload delivered {[c.n_frames for c in chunks]} frames of {nf}")
+                    return
+                if any(c.unitcell_lengths is None or c.unitcell_angles is None for c in chunks):
+                    ctx.violation("history.presence", f"foreign:{which}:complete-input:cell-lost", "a chunk of iterload has no cell although every frame of the file carries one")
+                    return
+                r = md.Trajectory(np.zeros((nf, 1, 3), np.float32), common.simple_topology(1), unitcell_lengths=np.concatenate([c.unitcell_lengths for c in chunks]),
+                                  unitcell_angles=np.concatenate([c.unitcell_angles for c in chunks]))
+                m.na = 1
+        except Refused:
+            return
+        exp = Shadow(len(rows), m.na if r.n_atoms != 1 or na == 1 else 1, L[rows], A[rows], 1, qL, qA, qAc)
+        if r.n_atoms == na:
+            exp.na = na
+        h.judge(f"foreign:{which}", r, exp, "complete", base=f"foreign:{which}")
+    finally:
+        shutil.rmtree(tmp, ignore_errors=True)
+
+
+NWIDE = {"quick": dict(algebra=360, util2=320, history2=900, io=1, foreign=2), "thorough": dict(algebra=2400, util2=1600, history2=6000, io=6, foreign=12)}
+
+
+def _gen_cases_widened(tier, seed):
+    n = NWIDE[tier]
+    i = 10 ** 6  # widened cases are numbered apart from the round-1 stream
+    for k, seq in enumerate(SWEEP_STATES):
+        for rep in range(1 if tier == "quick" else 4):
+            yield dict(i=i, kind="sweep2", seq=seq, seed=common.case_seed(seed, "C17w", i))
+            i += 1
+    # io matrix: every format x writer x loader once per pass; frame counts / states / cell patterns rotate with the seed
+    cells = [(f, w, l) for f in IO_FORMATS for w in IO_WRITERS for l in IO_LOADERS]
+    big = [100, 101, 130, 257]
+    for rep in range(n["io"]):
+        for k, (f, w, l) in enumerate(cells):
+            s = common.case_seed(seed, "C17io", i)
+            long_ = (k + seed + rep) % 23 == 0 and EXT_ALIASES.get(f, f) not in ("rst7", "ncrst", "pdb", "gro", "dtr")
+            st = ["complete", "complete", "complete", "none", "complete", "lengths-only", "complete", "angles-only"][(k // 7 + rep + seed) % 8]
+            yield dict(i=i, kind="io", fmt=f, writer=w, loader=l, nf=(big[s % 4] if long_ else 2 + s % 9), na=3 + s % 9, state=st, pattern=PATTERNS[(k + seed) % len(PATTERNS)], seed=s,
+                       cells="any", ortho=bool(s % 3 == 0))
+            i += 1
+        for f in ("rst7", "ncrst"):
+            for st in ("complete", "none", "lengths-only"):
+                s = common.case_seed(seed, "C17io", i)
+                yield dict(i=i, kind="io", fmt=f, multi=True, writer="save", loader="load", nf=[2, 3, 10, 12][s % 4], na=3 + s % 5, state=st, pattern=PATTERNS[s % len(PATTERNS)], seed=s, cells="any")
+                i += 1
+    for rep in range(n["foreign"]):
+        for k, w in enumerate(FOREIGN):
+            for l in ("load", "stride", "frame", "iterload"):
+                s = common.case_seed(seed, "C17f", i)
+                yield dict(i=i, kind="foreign", which=w, loader=l, nf=(130 if (k + rep + seed) % 9 == 0 and not w.startswith("pdb") else 2 + s % 8), pattern=PATTERNS[(k + rep + s) % len(PATTERNS)], seed=s)
+                i += 1
+    total = n["algebra"] + n["util2"] + n["history2"]
+    na = nu = nh = 0
+    for j in range(total):
+        fa, fu, fh = na / n["algebra"], nu / n["util2"], nh / n["history2"]
+        mn = min(fa, fu, fh)
+        if mn == fa and na < n["algebra"]:
+            cls = CLASSES[na % len(CLASSES)]
+            nn = 260 if na % 30 == 7 else (130 if na % 10 == 3 else (1 if na % 10 == 5 else (2 if na % 10 == 8 else NCELL)))
+            yield dict(i=i, kind="algebra", cls=cls, perframe=True, var=VARIATIONS[(na // len(CLASSES)) % len(VARIATIONS)], n=nn, form=CELL_FORMS[(na // 2) % len(CELL_FORMS)],
+                       vform=VEC_FORMS[(na // 3) % len(VEC_FORMS)], rot=ROTS[(na // 5) % len(ROTS)], seed=common.case_seed(seed, "C17a2", i))
+            na += 1
+        elif mn == fu and nu < n["util2"]:
+            yield dict(i=i, kind="util2", mode=UTIL2_MODES[nu % len(UTIL2_MODES)], cls=CLASSES[(nu // len(UTIL2_MODES)) % len(CLASSES)], seed=common.case_seed(seed, "C17u2", i))
+            nu += 1
+        else:
+            deep = tier == "thorough" and nh % 4 == 0
+            yield dict(i=i, kind="history2", n_ops=int(30 if deep else 14), seed=common.case_seed(seed, "C17h2", i), cells="any" if nh % 3 else "ortho")
+            nh += 1
+        i += 1
+
+
 def run_case(case, ctx):
     warnings.simplefilter("ignore")
     kind = case["kind"]
@@ -1022,5 +2423,15 @@ def run_case(case, ctx):
             run_util(case, ctx)
         elif kind == "history":
             run_history(case, ctx)
+        elif kind == "util2":
+            run_util2(case, ctx)
+        elif kind == "history2":
+            run_history2(case, ctx)
+        elif kind == "sweep2":
+            run_sweep2(case, ctx)
+        elif kind == "io":
+            run_io(case, ctx)
+        elif kind == "foreign":
+            run_foreign(case, ctx)
         else:
             run_setters(case, ctx)
